@@ -49,7 +49,7 @@ from .c01 import bounded_cuts
 PROPERTY = "C06"
 LEVEL = "exploration"
 RULE = (
-    "per run: one serializer-matrix entry (116 configurations, 13 families), a configured limit from {256, 64, 1024, 4096, 16384, 65536} where the "
+    "per run: one serializer-matrix entry (116 configurations, 13 families), debug option on/off for every layer, a configured limit from {256, 64, 1024, 4096, 16384, 65536} where the "
     "serializer has one, one input of class {valid traffic + in-flight corruption (bitflip, truncate/remove span, dup_bytes, splice with another "
     "stream or garbage), crafted per-family corruption (invalid UTF-8, base64 padding/alphabet/checksum, compressed block/trailer/header, hostile "
     "pickle opcodes, wrong-shape DTO), structurally extreme input up to the limit (nesting, digit strings, backslash runs, long tokens, whitespace "
@@ -531,16 +531,17 @@ def run_malformed(world: World, family: str, mode: str) -> None:
     entry = entries[world.choose("entry", len(entries))]
     # entries without a configurable limit still need a scale for "extreme" and "random" sizes
     limit = world.pick("limit", LIMITS) if entry.has_limit else 1024
+    debug = bool(world.choose("debug", 2))  # the serializers' debug option (error_info); must not change any outcome TYPE
     data, bounds, limit, desc = build_input(world, entry, limit, mode)
     site = f"C06/{family}/{mode}"
-    world.notes.update(entry=entry.name, mode=mode, limit=limit if entry.has_limit else None, input=desc, nbytes=len(data))
+    world.notes.update(entry=entry.name, mode=mode, limit=limit if entry.has_limit else None, debug=debug, input=desc, nbytes=len(data))
 
     def ctx() -> str:
-        return f"entry={entry.name} mode={mode} limit={limit if entry.has_limit else None} input=[{desc}] data({len(data)})={_short(data)}"
+        return f"entry={entry.name} mode={mode} limit={limit if entry.has_limit else None} debug={debug} input=[{desc}] data({len(data)})={_short(data)}"
 
     # ---------------------------------------------------------------- one-shot
     if mode == "oneshot":
-        proto = entry.datagram_protocol(limit, hostile=True)
+        proto = entry.datagram_protocol(limit, hostile=True, debug=debug)
         world.log("datagram", len(data))
         try:
             proto.build_packet_from_datagram(data)
@@ -565,7 +566,7 @@ def run_malformed(world: World, family: str, mode: str) -> None:
     structural = M.LazyCuts(lambda: M.structural_cuts(data, bounds, entry.sep, entry.hints))
     cuts = bounded_cuts(world, n, structural, max_chunks)
     chunks = cuts_to_chunks(data, cuts)
-    proto = entry.protocol(needs, limit, hostile=True)
+    proto = entry.protocol(needs, limit, hostile=True, debug=debug)
     if mode == "copy":
         drv: Any = _Copy(proto, world)
     else:
